@@ -87,6 +87,9 @@ func Strings(long bool) []StrClass {
 				}
 			}
 		}
+		// all control characters: every byte expands six-fold when quoted (output-buffer growth inside the quoter)
+		out = append(out, StrClass{"len-control", []byte(rep("\x01", n)), true})
+		out = append(out, StrClass{"len-control", []byte(rep("ab\x1f\"", (n+3)/4)[:n]), true})
 		// a multi-byte rune straddling the end
 		if n >= 3 {
 			out = append(out, StrClass{"len-utf8", []byte(rep("w", n-3) + "€"), true})
